@@ -211,6 +211,27 @@ theorem C02_sites_model_verdict_ok (fs : FS) (enc : List (Bytes × Bytes)) (cf :
     verdict fs s target ae (serveSites fs enc cf blocks host method target ae) = "ok" :=
   serveSites_verdict_ok fs enc cf blocks host method target ae s hs hroot hp hrd
 
+/-! ### A site root that is the top of the file system (`root /`)
+
+`filepath.Abs` returns a path without a trailing separator for every directory but one: the top of
+the file system is `/` itself.  The elements of that root are the empty list, every absolute
+Casketfile path has it as a byte prefix, the hide-list entry is the Casketfile's path without its
+leading slash, and `http.Dir("/").Open` puts the slash back (`path.Clean("/"+name)`). -/
+
+open Casket.FileServeSites in
+/-- Under the root `/` the Casketfile is on the hide list WHEREVER it lies (any number of levels
+below), and the entry names it: the instance of `C02_casketfile_hidden` for the one root whose
+absolute path ends in a separator. -/
+theorem C02_casketfile_hidden_at_fs_root (fs : FS) (rel : Bytes) (e : Entry)
+    (hrel : rel ≠ []) (h : dirOpen fs (rootElems [slash]) rel = .ok e) :
+    hideCasketfile [slash] (slash :: rel) = [rel] ∧
+    isHidden fs (rootElems [slash]) (hideCasketfile [slash] (slash :: rel)) e.ino = true := by
+  have h1 : hideCasketfile [slash] (slash :: rel) = [rel] := by
+    cases rel with
+    | nil => exact absurd rfl hrel
+    | cons x xs => simp [hideCasketfile, hasPrefix, trimPrefix]
+  exact ⟨h1, C02_casketfile_hidden fs (rootElems [slash]) [slash] rel e hrel h⟩
+
 /-- The encodings and index pages the model uses by default are the lists in fileserver.go
 (regenerated on every run): three encodings whose extensions start with a dot, six index names
 without a slash. -/
@@ -308,6 +329,42 @@ theorem C02_sites_early_return_fails_witness :
     ∧ hideAllReturning (b! "/site/Casketfile") [b! "/site", b! "/out"] = [[b! "/Casketfile"], []]
     ∧ serve exFS { exSite with hide := [] } mGET (b! "/Casketfile") [] = .file 6 none
     ∧ verdict exFS exSite (b! "/Casketfile") [] (.file 6 none) = "bad:hidden:body is the content of a hidden file" := by
+  decide
+
+/-! (tests, root `/`) the same tree served by a site whose root is the top of the file system: the
+Casketfile two levels down is hidden under its full path, left out of the listing and the archive of
+its directory; other files are served. -/
+def exRootSite : Site := { exSite with
+  root := Casket.FileServeSites.rootElems (b! "/"), hide := hideCasketfile (b! "/") (b! "/site/Casketfile"),
+  browse := [{ scope := b! "/site", archives := [b! "tar"] }] }
+
+example : exRootSite.root = [] := by decide
+example : NormalSegs exRootSite.root := by
+  have h : exRootSite.root = [] := by decide
+  intro s hs; rw [h] at hs; cases hs
+example : RootIsDir exFS exRootSite := by
+  have h : exRootSite.root = [] := by decide
+  intro e he; rw [h] at he; simp [stat, rootEntry] at he; subst he; rfl
+example : exRootSite.hide = [b! "site/Casketfile"] := by decide
+example : serve exFS exRootSite mGET (b! "/site/Casketfile") [] = .status 404
+    ∧ serve exFS exRootSite mGET (b! "/site/d/../Casketfile") [] = .status 404
+    ∧ serve exFS exRootSite mGET (b! "/site/a") [] = .file 2 none
+    ∧ serve exFS exRootSite mGET (b! "/site/") [] = .listing [b! "a", b! "a.gz", b! "d"]
+    ∧ serve exFS exRootSite mGET (b! "/site/?archive=tar") [] =
+      .archive [⟨[b! "site", b! "a"], some 2⟩, ⟨[b! "site", b! "a.gz"], some 3⟩, ⟨[b! "site", b! "d"], none⟩,
+                ⟨[b! "site", b! "d", b! "c"], some 5⟩] := by decide
+
+open Casket.FileServeSites in
+/-- What `C02_casketfile_hidden_at_fs_root` rests on: a containment test on whole path segments
+(`HasPrefix(casketfile, root + "/")`, not the code) agrees with the code for every root that has a
+name, and for the root `/` tests the prefix `//`: the hide list stays empty and the site serves its
+Casketfile (judged `bad:hidden`). -/
+theorem C02_fs_root_separator_test_fails_witness :
+    hideCasketfileSep (b! "/site") (b! "/site/Casketfile") = hideCasketfile (b! "/site") (b! "/site/Casketfile")
+    ∧ hideCasketfile (b! "/") (b! "/site/Casketfile") = [b! "site/Casketfile"]
+    ∧ hideCasketfileSep (b! "/") (b! "/site/Casketfile") = []
+    ∧ serve exFS { exRootSite with hide := [] } mGET (b! "/site/Casketfile") [] = .file 6 none
+    ∧ verdict exFS exRootSite (b! "/site/Casketfile") [] (.file 6 none) = "bad:hidden:body is the content of a hidden file" := by
   decide
 
 end Casket.Props.C02
